@@ -52,6 +52,10 @@ MODULE_MENU = {
     "m_toplevel_lambda": "lambda: {n}\n",                                            # error; fatal in the file analyser
     "m_rel_import": "from .{p}_nowhere{n} import {p}_x{n}\n",                        # error then fatal
     "m_import_missing": "import {p}_nonexistent{n}\n",                               # fatal
+    # star import of a module without Python source: an error raised by the star-import expansion of
+    # the importing file, outside every enter_file block of the expansion (culprit: the Import symbol)
+    "m_star_math": "from math import *\n",                                          # warning + error
+    "m_star_sys": "from sys import *\n",                                            # warning + error
     # --- walrus on the rhs of a module-level assignment (the two `with DictChanges` blocks)
     "m_walrus_lambda_fatal": "{p}_wh{n} = ({p}_ww{n} := lambda e: getattr({p}_base(e), 'name'))\n",
     "m_walrus_lambda_error": "{p}_wc{n} = ({p}_wi{n} := lambda ev: [(lambda q: q.z) for _ in ev.items])\n",
@@ -89,12 +93,27 @@ ENDING = ("m_lambda_pair", "m_toplevel_lambda", "m_rel_import", "m_import_missin
           "m_results_uneval", "m_results_dup", "m_results_posarg", "m_results_badtype",
           "f_comp_fatal", "f_lambda_fatal", "f_nested_def_fatal", "f_global", "f_init_fatal")
 WEIGHTED_ROOT = ("m_del", "m_bad_namedtuple", "m_toplevel_expr", "m_walrus_bad_namedtuple")
+STAR_NO_SOURCE = ("m_star_math", "m_star_sys")
+# module names whose file names are near misses of each other: the target's spelling is a suffix of an
+# import's path (`util.py` / `text_util.py`, `utils.py` / `pkg/utils.py`), and the other way round
+NEAR_MISS_NAMES = (
+    {"target": "util", "helper": "text_util", "tstar": "my_util", "hstar": "x_util", "tstar2": "old_util"},
+    # (star-imported modules keep undotted names: `from a.b import *` outside an __init__.py crashes the pinned
+    # code — gen_import_from_stmt rejects the dotted name while the star-import warning is built; a C07 matter)
+    {"target": "utils", "helper": "pkg.utils", "tstar": "my_utils", "hstar": "x_utils", "tstar2": "more_utils"},
+    {"target": "text_util", "helper": "util", "tstar": "xt_util", "hstar": "il", "tstar2": "t_util"},
+)
 QUIET = ("m_multi_import", "m_walrus_lambda_ok", "m_results_ok", "f_plain", "f_method_call")
 
 HEAD = (
     "from collections import namedtuple\n"
     "from rattr.analyser.annotations import rattr_ignore, rattr_results\n"
 )
+
+
+def module_names(prog):
+    """role -> dotted module name (default: the role itself; `names` in the program overrides)."""
+    return {**{f: f for f in FILES}, **(prog.get("names") or {})}
 
 
 def render(prog):
@@ -104,6 +123,7 @@ def render(prog):
     out = {}
     n = 0
     dot = "." if prog.get("layout") == "package" else ""
+    names = module_names(prog)
     present = [f for f in FILES if f in prog["files"]]
     for name in present:
         p = PREFIX[name]
@@ -111,10 +131,10 @@ def render(prog):
         if name == "target":
             parts.append("from math import sqrt\n")
             if "helper" in prog["files"]:
-                parts.append(f"from {dot}helper import h_plain, h_ignored, h_missing\n")
+                parts.append(f"from {dot}{names['helper']} import h_plain, h_ignored, h_missing\n")
         for star, owner in STAR_OF.items():
             if owner == name and star in prog["files"]:
-                parts.append(f"from {dot}{star} import *\n")
+                parts.append(f"from {dot}{names[star]} import *\n")
         parts.append(f"\ndef {p}_base(x):\n    return x.{p}attr\n\n")
         if name == "helper":
             parts.append("def h_plain(x):\n    return x.hattr\n\n@rattr_ignore\ndef h_ignored(x):\n    return x.y\n\n")
@@ -152,10 +172,18 @@ class ScopedProject:
             where = self.cwd / "pkg"
             where.mkdir()
             (where / "__init__.py").write_text("")
+        names = module_names(prog)
         for name, src in self.sources.items():
-            self.paths[name] = where / f"{name}.py"
+            parts = names[name].split(".")
+            d = where
+            for part in parts[:-1]:
+                d = d / part
+                d.mkdir(exist_ok=True)
+                if not (d / "__init__.py").exists():
+                    (d / "__init__.py").write_text("")
+            self.paths[name] = d / f"{parts[-1]}.py"
             self.paths[name].write_text(src)
-        self.target_arg = "pkg/target.py" if prog.get("layout") == "package" else "target.py"
+        self.target_arg = str(self.paths["target"].relative_to(self.cwd))
         self.target_path = self.paths["target"]
         (self.root / "pyproject.toml").write_text("[tool.rattr]\n")
         (self.cwd / "strict.toml").write_text("[tool.rattr]\nstrict = true\n")
@@ -183,8 +211,11 @@ class ScopedProject:
 # programs
 # ------------------------------------------------------------------------------------------------
 
-def _prog(files, simpl=(), layout="flat"):
-    return {"kind": "scoped", "files": {k: list(v) for k, v in files.items()}, "simpl": list(simpl), "layout": layout}
+def _prog(files, simpl=(), layout="flat", names=None):
+    p = {"kind": "scoped", "files": {k: list(v) for k, v in files.items()}, "simpl": list(simpl), "layout": layout}
+    if names:
+        p["names"] = {k: v for k, v in names.items() if k in files}
+    return p
 
 
 def fixed_programs(tier="thorough", rng=None, n_rotating=10):
@@ -222,6 +253,16 @@ def fixed_programs(tier="thorough", rng=None, n_rotating=10):
                        "tstar2": ["m_walrus_bad_namedtuple"]}, layout="package"))
     core += [_prog({"target": ["f_plain"], "helper": [k]}, layout="package") for k in ("m_walrus_lambda_fatal", "m_walrus_lambda_error")]
     core.append(_prog({"target": ["m_walrus_tuple_fatal"], "helper": ["f_undefined_name"], "tstar": ["m_del"]}, layout="package"))
+    # star imports of modules without Python source: in the target, in the followed import, and in the
+    # module the target star-imports (expanded while the *target's* star imports are expanded)
+    core += [mk(k) for k in STAR_NO_SOURCE for mk in (in_target, in_helper)] + [in_star("m_star_math")]
+    core.append(_prog({"target": ["m_star_math", "m_star_sys", "m_del"], "helper": ["m_star_sys"], "tstar": ["m_del"]}))
+    # near-miss file names
+    for names in NEAR_MISS_NAMES:
+        core.append(_prog({"target": ["f_undefined_name"], "helper": ["f_undefined_name", "f_nested_def"], "tstar": ["m_del"]}, names=names))
+    core.append(_prog({"target": ["m_del"], "helper": ["m_bad_namedtuple"], "hstar": ["m_del"], "tstar": ["f_plain"], "tstar2": ["m_toplevel_expr"]},
+                      names=NEAR_MISS_NAMES[0]))
+    core.append(_prog({"target": ["m_del"], "helper": ["m_walrus_lambda_error"], "hstar": ["m_del"]}, names=NEAR_MISS_NAMES[1]))
     seen = {__import__("json").dumps(p, sort_keys=True) for p in core}
     rest = []
     special = [k for k in MODULE_MENU if not (k.startswith("f_") and k[2:] in dc.ANALYSIS_MENU)]
@@ -252,7 +293,7 @@ def gen_program(rng):
     if "helper" in files and rng.random() < 0.4:
         files["hstar"] = []
     steady = [k for k in MODULE_MENU if k not in ENDING]
-    heavy = list(WEIGHTED_ROOT) + ["m_walrus_lambda_error", "m_walrus_lambda_warning", "m_walrus_nested_error",
+    heavy = list(WEIGHTED_ROOT) + list(STAR_NO_SOURCE) + ["m_walrus_lambda_error", "m_walrus_lambda_warning", "m_walrus_nested_error",
                                    "m_walrus_tuple_error", "m_lambda_error"]
     for name in files:
         for _ in range(rng.randint(0, 3)):
@@ -265,7 +306,8 @@ def gen_program(rng):
     if layout == "package":
         # an unresolvable relative import inside a package is a crash of the pinned code (C07, K8), not a diagnostic
         files = {f: [k for k in ks if k != "m_rel_import"] for f, ks in files.items()}
-    return _prog(files, simpl, layout)
+    names = rng.choice(NEAR_MISS_NAMES) if layout == "flat" and rng.random() < 0.3 else None
+    return _prog(files, simpl, layout, names)
 
 
 # ------------------------------------------------------------------------------------------------
@@ -286,6 +328,30 @@ def scope_index():
             idx.setdefault(s["file"], []).append(s)
         _SCOPE_INDEX = (str(repo_root()) + os.sep, idx, [s["id"] for v in idx.values() for s in v])
     return _SCOPE_INDEX
+
+
+REEMITTING = "reraises-reemitting-captured-stderr"
+
+
+def filtered_families():
+    """Message families that a re-emitting handler of the code under test filters out (from the scan)."""
+    return [s["shape"][0] for v in scope_index()[1].values() for s in v
+            if s["kind"] == "try" and s["verdict"] == REEMITTING and s.get("shape")]
+
+
+def in_reemitting_handler(frame):
+    """Is some frame from `frame` outwards executing the *handler body* of a re-emitting try? (the
+    diagnostic raised there is the handler's replacement fatal: the model derives it itself)"""
+    root, idx, _ = scope_index()
+    while frame is not None:
+        fn = frame.f_code.co_filename
+        if fn.startswith(root):
+            rel = fn[len(root):].replace(os.sep, "/")
+            for s in idx.get(rel, ()):
+                if s["kind"] == "try" and s["verdict"] == REEMITTING and s["handler_first"] <= frame.f_lineno <= s["handler_last"]:
+                    return True
+        frame = frame.f_back
+    return False
 
 
 def all_scope_ids():
@@ -368,11 +434,17 @@ class ScopeTap:
                     inst = dc.current_config()
                     cur = project.fid_of_path(inst.state.current_file) if inst is not None else None
                     line_file = None
-                    if isinstance(culprit, ast.AST) and getattr(culprit, "lineno", None):
-                        k = culprit.lineno // PAD
+                    lineno = getattr(culprit, "lineno", None) if isinstance(culprit, ast.AST) else \
+                        getattr(getattr(culprit, "location", None), "lineno", None)
+                    if lineno:
+                        k = lineno // PAD
                         line_file = k if k < len(FILES) else 99
+                    caller = sys._getframe(1)
                     extra = dict(cur=cur, scope_file=me._visit[-1] if me._visit else None, line_file=line_file,
-                                 scopes=active_scopes(sys._getframe(1)))
+                                 raiser=getattr(caller.f_code, "co_qualname", caller.f_code.co_name),
+                                 scopes=active_scopes(sys._getframe(1)),
+                                 derived=in_reemitting_handler(sys._getframe(1)),
+                                 filtered=any(f in str(message) for f in filtered_families()))
                     me.steps.append({"t": "diag", "ev": n})
                 try:
                     return inner(message, culprit, *a, **kw)
@@ -500,14 +572,35 @@ def run_inprocess(project: ScopedProject, argv):
 # from a tapped run to the model's input
 # ------------------------------------------------------------------------------------------------
 
+NESTED_STAR = "star-expansion-error-of-a-nested-star-import"
+STAR_DESCENDANTS_OF_TARGET = (FID["tstar"], FID["tstar2"])
+
+
+def is_nested_star_expansion_error(ev):
+    """A diagnostic that `Context.expand_starred_imports` raises itself (culprit: the starred Import
+    symbol) about a star import written in a module that the target star-imports. The expansion
+    loop handles the star imports found in star-imported modules in the same loop, outside every
+    enter_file block, so `current_file` is still the file whose expansion started the loop.
+    (Which function raised it, what the culprit is and which file the statement is in: facts about
+    the input and the call site, none about what the implementation answers.)"""
+    return (ev["stage"] == "analysis" and ev["culprit"] == "symbol" and ev.get("raiser") == "Context.expand_starred_imports"
+            and ev.get("line_file") in STAR_DESCENDANTS_OF_TARGET)
+
+
 def src_of(ev):
     """-> (file id | None, attributed?). Where the diagnostic REALLY arose, never from
     `state.current_file`: simplification stage -> no file; during analysis the file of the culprit's
-    line, else the file whose AST is being analysed. Unattributable -> what the code says."""
+    line (an AST node, or a symbol's location: the statement that declared it), else the file whose
+    AST is being analysed. Unattributable -> what the code says."""
     if ev["stage"] == "simplification":
         return None, True
+    if is_nested_star_expansion_error(ev):
+        # known finding (see known_findings.json): reported per diagnostic by `event_violations`; for the
+        # run-level oracles the diagnostic stays where the pinned code books it, so that they keep
+        # judging everything else in such a program
+        return ev.get("cur"), False
     if ev["stage"] == "analysis":
-        if ev["culprit"] == "ast" and ev.get("line_file") is not None:
+        if ev["culprit"] in ("ast", "symbol") and ev.get("line_file") is not None:
             return ev["line_file"], True
         if ev.get("scope_file") is not None:
             return ev["scope_file"], True
@@ -527,10 +620,11 @@ def model_steps(run):
             out.append(dict(s))
             continue
         e = evs[s["ev"]] if s["ev"] < len(evs) else None
-        if e is None or e["stage"] not in ("analysis", "simplification"):
-            continue
+        if e is None or e["stage"] not in ("analysis", "simplification") or e.get("derived"):
+            continue        # (derived: the replacement fatal of a re-emitting handler — the model raises it itself)
         src, _ = src_of(e)
-        out.append({"t": "diag", "level": e["level"], "badness": e["badness"], "src": src, "scopes": e.get("scopes", [])})
+        out.append({"t": "diag", "level": e["level"], "badness": e["badness"], "src": src,
+                    "filtered": bool(e.get("filtered")), "scopes": e.get("scopes", [])})
     return out
 
 
@@ -543,7 +637,8 @@ def diag_only(steps):
 # ------------------------------------------------------------------------------------------------
 
 BUCKET_IX = {"target": 0, "import": 1, "simplification": 2}
-EV_KEYS = ("level", "badness", "where", "stage", "line", "message", "before", "after", "cur", "scope_file", "line_file", "scopes")
+EV_KEYS = ("level", "badness", "where", "stage", "line", "message", "before", "after", "cur", "scope_file", "line_file", "scopes",
+           "derived", "filtered", "raiser")
 
 # scopes under which the fixed programs must end a run (suffix of the id -> kinds of ending):
 # "fatal" = a fatal diagnostic, "strict" = a weighted error promoted under strict mode
@@ -576,8 +671,8 @@ NO_DIAGNOSTIC_INSIDE = {
 
 
 def selected_output(stdout: str) -> bool:
-    """Is anything other than diagnostic lines on stdout? (the annotation parser re-prints captured
-    diagnostic lines with `print`, i.e. on stdout; that is not the selected output)"""
+    """Is anything other than diagnostic lines on stdout? (a diagnostic line there is reported on its
+    own, signature `diagnostic-line-on-stdout`; it is not the selected output)"""
     return any(raw.strip() and not dc.LINE_RE.match(raw) for raw in stdout.splitlines())
 
 
@@ -593,8 +688,11 @@ def event_violations(ev):
         out.append(f"undocumented-weight:{lvl}:{b}")
     src, attributed = src_of(ev)
     a = place_of(src) if attributed else None
+    tag = ""
+    if is_nested_star_expansion_error(ev):
+        a, tag = place_of(ev["line_file"]), ":" + NESTED_STAR
     if a is not None and ev["where"] is not None and a != ev["where"]:
-        out.append(f"bucket-of-diagnostic:arose-in-{a}-counted-as-{ev['where']}")
+        out.append(f"bucket-of-diagnostic:arose-in-{a}-counted-as-{ev['where']}{tag}")
     if ev["before"] is not None and ev["after"] is not None and ev["where"] is not None:
         delta = [y - x for x, y in zip(ev["before"], ev["after"])]
         want = [0, 0, 0]
@@ -604,7 +702,7 @@ def event_violations(ev):
                 out.append(f"weight-not-added:{lvl}:{a or ev['where']}")
             elif sum(delta) == sum(want):
                 got = [k for k, i in BUCKET_IX.items() if delta[i]]
-                out.append(f"weight-added-to-wrong-bucket:{lvl}:{a or ev['where']}->{'+'.join(got)}")
+                out.append(f"weight-added-to-wrong-bucket:{lvl}:{a or ev['where']}->{'+'.join(got)}{tag}")
             else:
                 out.append(f"weight-added-differs:{lvl}:{a or ev['where']}:{sum(delta)}-for-{sum(want)}")
     return out
@@ -691,8 +789,10 @@ def judge(res, rec, cli, mouts, coverage, c15):
         res.sample({"case": {"program": prog, "cfg": cfg}, "impl": im}, cap=10)
         res.count(f"scoped:cfg:{'strict' if cfg['strict'] else 'lax'}:thr={'0' if cfg['threshold'] == 0 else ('total%+d' % (cfg['threshold'] - total))}")
         res.count(f"scoped:exit:{cl['exit']}")
-        if im["stdout_diag_lines"]:
-            res.count("scoped:diagnostic-line-on-stdout:" + "+".join(sorted(set(im["stdout_diag_lines"]))))
+        if im["stdout_diag_lines"] or stdout_diag_lines(ip["stdout"]):
+            # every diagnostic belongs on stderr: stdout carries the selected output or nothing
+            res.violations.append({"signature": "diagnostic-line-on-stdout", "case": case, "impl": im,
+                                   "lines": [raw for raw in (cl["stdout"] + ip["stdout"]).splitlines() if dc.LINE_RE.match(raw)][:4]})
         for e in ip["events"]:
             for sig in event_violations(e):
                 res.violations.append({"signature": sig, "case": case, "event": {k: e.get(k) for k in EV_KEYS}})
@@ -715,7 +815,8 @@ def judge(res, rec, cli, mouts, coverage, c15):
               "stderr_levels": [p[0] for p in mo["stderr"]], "n_events": n, "locs": mo["locs"],
               "gate": mo["gate"]}
         ii = {"exit": ip["exit"], "output": im["inproc"]["selected_output"], "buckets": ip["buckets"], "logged": ip_printed,
-              "stderr_levels": cli_levels, "n_events": len(ip_diags),
+              "stderr_levels": cli_levels,
+              "n_events": len([e for e in ip["events"] if e["stage"] in ("analysis", "simplification")]),
               "locs": [e["where"] for e in ip["events"] if e["stage"] in ("analysis", "simplification")],
               "gate": bool(gate)}
         diffs = [k for k in mm if mm[k] != ii[k]]
@@ -745,6 +846,10 @@ def judge(res, rec, cli, mouts, coverage, c15):
                                    "case": case, "impl": im, "spec": sp})
         elif ("fatal" in cli_levels or "fatal" in im["stdout_diag_lines"]) and (real_exit != 1 or im["selected_output"]):
             res.violations.append({"signature": "fatal-line-printed-but-run-not-ended", "case": case, "impl": im, "spec": sp})
+        if real_exit == 1 and "fatal" not in cli_levels:
+            # observable form of "exits 1 exactly when a fatal diagnostic is raised or the gate fails" (the gate
+            # reports with a fatal too, and fatals are never filtered): C15_captured_fatal_on_stderr for the model
+            res.violations.append({"signature": "exit-1-without-a-fatal-line-on-stderr", "case": case, "impl": im, "spec": sp})
         if real_exit == 0 and not im["selected_output"]:
             res.violations.append({"signature": "no-output-on-exit-0", "case": case, "impl": im, "spec": sp})
         if real_exit != 0 and im["selected_output"]:
